@@ -375,6 +375,21 @@ pub fn check_text(text: &str) -> Verdict {
         }
         Err(_) => {
             // only (a) and the self-describing part of (c)
+            for (k, (pt, m)) in real.iter().zip(mapped.iter()).enumerate() {
+                // whatever the token is (also an error token that runs over several lines): the reported start and end
+                // are the line/column of the characters they denote, not some other pair that happens to add up to
+                // the same offset (a column past the end of its line)
+                if let Some((s, e)) = m {
+                    let sp = pt.span;
+                    let after = li.pos[*e];
+                    let last_plus_one = if e > s { (li.pos[*e - 1].0, li.pos[*e - 1].1 + 1) } else { li.pos[*s] };
+                    if (sp.line_start, sp.col_start) != li.pos[*s] {
+                        problems.push(format!("c:start token#{} {:?} reported {}:{} but that character is at {}:{}", k, pt.token, sp.line_start, sp.col_start, li.pos[*s].0, li.pos[*s].1));
+                    } else if (sp.line_end, sp.col_end) != after && (sp.line_end, sp.col_end) != last_plus_one {
+                        problems.push(format!("c:end token#{} {:?} reported end {}:{} but its text ends at {}:{} (or {}:{} counted from its last character)", k, pt.token, sp.line_end, sp.col_end, after.0, after.1, last_plus_one.0, last_plus_one.1));
+                    }
+                }
+            }
             for (pt, m) in real.iter().zip(mapped.iter()) {
                 if let (Some(txt), Some((s, e))) = (canonical_text(&pt.token), m) {
                     let have: String = li.chars[*s..(*e).min(li.chars.len())].iter().collect();
